@@ -316,6 +316,20 @@ pub proof fn lemma_round8_props(n: int)
     ensures round8(n) >= n, round8(n) % 8 == 0, round8(n) - n < 8,
         n % 8 == 0 ==> round8(n) == n,
 {
+    let q = (n + 7) / 8;
+    let r = (n + 7) % 8;
+    vstd::arithmetic::div_mod::lemma_fundamental_div_mod(n + 7, 8);
+    assert(n + 7 == 8 * q + r);
+    assert(0 <= r < 8);
+    assert(round8(n) == q * 8);
+    vstd::arithmetic::div_mod::lemma_mod_multiples_basic(q, 8);
+    if n % 8 == 0 {
+        vstd::arithmetic::div_mod::lemma_fundamental_div_mod(n, 8);
+        let k = n / 8;
+        assert(n == 8 * k);
+        assert(n + 7 == 8 * k + 7);
+        vstd::arithmetic::div_mod::lemma_fundamental_div_mod_converse(n + 7, 8, k, 7);
+    }
 }
 
 } // verus!
